@@ -199,6 +199,102 @@ func (ex *Exec) bytesArg(s *State, v Value) (hashSeg, error) {
 	return hashSeg{}, unsupported("hash input %T", v)
 }
 
+// curlTrits: the 243 output trits of the uninterpreted Curl-P-81 sponge for the absorbed input; two
+// uninterpreted bits per trit (sign, non-zero) so that every value is a trit by construction.
+func (ex *Exec) curlTrits(h *HashV) []*Term {
+	c := ex.Ctx
+	// The sponge is an unknown deterministic function of the absorbed trits. Identical input terms
+	// give the same output symbols (memoised by term identity); for syntactically different inputs
+	// the congruence axiom "equal inputs => equal outputs" is added lazily, when a counterexample
+	// candidate gives two instances equal inputs (refineOpaque) - a single uninterpreted function
+	// over the 1944-bit packed input makes every query take minutes.
+	var in []*Term
+	var kb strings.Builder
+	kb.WriteString("curl")
+	for _, sg := range h.Segs {
+		for _, b := range sg.B {
+			fmt.Fprintf(&kb, ",%d", b.ID)
+		}
+		in = append(in, sg.B...)
+	}
+	key := kb.String()
+	if r, ok := ex.opaqueMemo[key]; ok {
+		return r
+	}
+	k := len(ex.opaqueMemo)
+	out := make([]*Term, 243)
+	for i := 0; i < 243; i++ {
+		neg := c.Var(fmt.Sprintf("curl!%d!%d!neg", k, i), SBool)
+		nz := c.Var(fmt.Sprintf("curl!%d!%d!nz", k, i), SBool)
+		out[i] = c.Ite(nz, c.Ite(neg, c.BV(8, 0xFF), c.BV(8, 1)), c.BV(8, 0))
+	}
+	ex.opaqueMemo[key] = out
+	ex.opaqueInst = append(ex.opaqueInst, opaqueInst{In: in, Out: out})
+	return out
+}
+
+// opaqueInst: one application of a memoised opaque function (see curlTrits).
+type opaqueInst struct {
+	In, Out []*Term
+}
+
+// refineOpaque is called with a satisfiable counterexample candidate `as`. It asks the solver for the
+// inputs of all opaque-function instances under the candidate's model and returns the congruence
+// axioms (equal inputs => equal outputs) of instance pairs that have equal inputs in the model and no
+// axiom yet. No new axiom means the candidate respects functional consistency.
+func (ex *Exec) refineOpaque(as []*Term) (axioms []*Term, res Result) {
+	c := ex.Ctx
+	seen := map[*Term]bool{}
+	var want []*Term
+	for _, inst := range ex.opaqueInst {
+		for _, t := range inst.In {
+			if !t.IsConst() && !seen[t] {
+				seen[t] = true
+				want = append(want, t)
+			}
+		}
+	}
+	res, model := ex.Solver.Check(as, want)
+	if res != Sat {
+		return nil, res
+	}
+	groups := map[string][]int{}
+	for k, inst := range ex.opaqueInst {
+		var kb strings.Builder
+		fmt.Fprintf(&kb, "%d:", len(inst.In))
+		for _, t := range inst.In {
+			var v uint64
+			if t.IsConst() {
+				v = t.U
+			} else if mv, ok := model[t]; ok {
+				v = mv.Uint64()
+			}
+			fmt.Fprintf(&kb, "%x,", v)
+		}
+		groups[kb.String()] = append(groups[kb.String()], k)
+	}
+	for _, g := range groups {
+		for x := 1; x < len(g); x++ {
+			a, b := g[0], g[x]
+			pk := fmt.Sprintf("%d/%d", a, b)
+			if ex.opaquePairs[pk] {
+				continue
+			}
+			ex.opaquePairs[pk] = true
+			ia, ib := ex.opaqueInst[a], ex.opaqueInst[b]
+			var ins, outs []*Term
+			for i := range ia.In {
+				ins = append(ins, c.Eq(ia.In[i], ib.In[i]))
+			}
+			for i := range ia.Out {
+				outs = append(outs, c.Eq(ia.Out[i], ib.Out[i]))
+			}
+			axioms = append(axioms, c.BOr(c.BNot(c.BAnd(ins...)), c.BAnd(outs...)))
+		}
+	}
+	return axioms, Sat
+}
+
 // OpaqueBlob: a byte string of unknown length and content that the code may only pass on.
 type OpaqueBlob struct{ T *Term }
 
@@ -261,11 +357,7 @@ func (ex *Exec) hashMethod(s *State, name string, args []Value) (Value, *Fork, e
 			return nil, nil, unsupported("curl model: only one Squeeze of %d trits is modelled", h.OutLen)
 		}
 		h.Squeezed = true
-		d := ex.digestBytes(h)
-		// contract of the sponge: the output consists of trits
-		for _, b := range d {
-			s.PC = append(s.PC, c.BOr(c.Eq(b, c.BV(8, 0)), c.Eq(b, c.BV(8, 1)), c.Eq(b, c.BV(8, 0xFF))))
-		}
+		d := ex.curlTrits(h) // the output consists of trits by construction
 		sl := ex.newByteSlice(s, d)
 		if name == "MustSqueeze" {
 			return sl, nil, nil
@@ -425,5 +517,141 @@ func registerHashModels(ex *Exec) {
 		h.Segs = append(h.Segs, pw, hashSeg{Blob: c.Var("sep!pbkdf2", Sort{K: KU, Name: "Blob"})}, salt)
 		d := ex.digestBytes(h)
 		return ex.newByteSlice(s, d), nil, nil
+	}
+}
+
+// ---- iota.go curl/bct (batched Curl): contract model
+//
+// Absorb of up to 64 one-block buffers followed by CopyState: lane j of (l[i], h[i]), i < 243,
+// encodes trit i of CurlP81(buffer j) with (1,1) = 0, (0,1) = +1, (1,0) = -1, where CurlP81 is
+// the same uninterpreted function as the unbatched iota.go curl model.
+
+type BctV struct {
+	Lanes [][]*Term
+}
+
+func (b *BctV) Copy() Value { n := *b; n.Lanes = append([][]*Term{}, b.Lanes...); return &n }
+
+func registerBctModels(ex *Exec) {
+	m := ex.Models
+	const pkg = "github.com/iotaledger/iota.go/curl/bct"
+	get := func(ex *Exec, s *State, v Value, write bool) (*BctV, error) {
+		p, ok := v.(Ptr)
+		if !ok || p.Obj == 0 {
+			return nil, &goPanic{"nil *bct.Curl"}
+		}
+		var o *Object
+		if write {
+			o = ex.writable(s, p.Obj)
+		} else {
+			o = s.Heap[p.Obj]
+		}
+		b, ok := o.V.(*BctV)
+		if !ok {
+			return nil, unsupported("bct.Curl object holds %T", o.V)
+		}
+		return b, nil
+	}
+	m[pkg+".NewCurlP81"] = func(ex *Exec, s *State, cc *ssa.CallCommon, a []Value) (Value, *Fork, error) {
+		id := ex.newObject(s, &BctV{}, nil)
+		return Ptr{Obj: id}, nil, nil
+	}
+	m["(*"+pkg+".Curl).Reset"] = func(ex *Exec, s *State, cc *ssa.CallCommon, a []Value) (Value, *Fork, error) {
+		b, err := get(ex, s, a[0], true)
+		if err != nil {
+			return nil, nil, err
+		}
+		b.Lanes = nil
+		return nil, nil, nil
+	}
+	m["(*"+pkg+".Curl).Absorb"] = func(ex *Exec, s *State, cc *ssa.CallCommon, a []Value) (Value, *Fork, error) {
+		b, err := get(ex, s, a[0], true)
+		if err != nil {
+			return nil, nil, err
+		}
+		n := a[2].(*Term)
+		if !n.IsConst() || n.U != 243 || b.Lanes != nil {
+			return nil, nil, unsupported("bct model: only one Absorb of 243 trits after Reset is modelled")
+		}
+		src, err := ex.sliceElems(s, a[1].(SliceV))
+		if err != nil {
+			return nil, nil, err
+		}
+		if len(src) < 1 || len(src) > 64 {
+			return nil, nil, unsupported("bct model: batch size %d", len(src))
+		}
+		for _, lane := range src {
+			bs, err := ex.sliceBytes(s, lane.(SliceV))
+			if err != nil {
+				return nil, nil, err
+			}
+			if len(bs) < 243 {
+				return nil, nil, &goPanic{"bct.Absorb: lane shorter than 243 trits"}
+			}
+			b.Lanes = append(b.Lanes, bs[:243])
+		}
+		return IfaceV{}, nil, nil
+	}
+	m["(*"+pkg+".Curl).CopyState"] = func(ex *Exec, s *State, cc *ssa.CallCommon, a []Value) (Value, *Fork, error) {
+		b, err := get(ex, s, a[0], false)
+		if err != nil {
+			return nil, nil, err
+		}
+		if b.Lanes == nil {
+			return nil, nil, unsupported("bct model: CopyState before Absorb")
+		}
+		c := ex.Ctx
+		l, h := a[1].(SliceV), a[2].(SliceV)
+		digests := make([][]*Term, 64)
+		for j := range digests {
+			if j < len(b.Lanes) {
+				hv := &HashV{Kind: "curlp81", OutLen: 243, Segs: []hashSeg{{B: b.Lanes[j]}}}
+				digests[j] = ex.curlTrits(hv)
+			}
+		}
+		nw := l.Len
+		if h.Len < nw {
+			nw = h.Len
+		}
+		if nw > 243 {
+			return nil, nil, unsupported("bct model: CopyState of more than the 243 hash words")
+		}
+		for i := 0; i < nw; i++ {
+			lb, hb := make([]*Term, 64), make([]*Term, 64)
+			for j := 0; j < 64; j++ {
+				var lt, ht *Term
+				if digests[j] == nil {
+					lt, ht = c.BV(1, 1), c.BV(1, 1)
+				} else {
+					t := digests[j][i]
+					lt = c.Ite(c.Eq(t, c.BV(8, 1)), c.BV(1, 0), c.BV(1, 1))
+					ht = c.Ite(c.Eq(t, c.BV(8, 0xFF)), c.BV(1, 0), c.BV(1, 1))
+				}
+				lb[63-j], hb[63-j] = lt, ht
+			}
+			if err := ex.store(s, Ptr{Obj: l.Obj, Path: appendPath(l.Path, PE{I: l.Off + i})}, c.Concat(lb...)); err != nil {
+				return nil, nil, err
+			}
+			if err := ex.store(s, Ptr{Obj: h.Obj, Path: appendPath(h.Path, PE{I: h.Off + i})}, c.Concat(hb...)); err != nil {
+				return nil, nil, err
+			}
+		}
+		return nil, nil, nil
+	}
+	// sync/atomic on plain words (single-threaded symbolic execution)
+	m["sync/atomic.LoadUint32"] = func(ex *Exec, s *State, cc *ssa.CallCommon, a []Value) (Value, *Fork, error) {
+		v, err := ex.load(s, a[0].(Ptr))
+		return v, nil, err
+	}
+	m["sync/atomic.StoreUint32"] = func(ex *Exec, s *State, cc *ssa.CallCommon, a []Value) (Value, *Fork, error) {
+		return nil, nil, ex.store(s, a[0].(Ptr), a[1])
+	}
+	m["sync/atomic.AddUint64"] = func(ex *Exec, s *State, cc *ssa.CallCommon, a []Value) (Value, *Fork, error) {
+		v, err := ex.load(s, a[0].(Ptr))
+		if err != nil {
+			return nil, nil, err
+		}
+		nv := ex.Ctx.Add(v.(*Term), a[1].(*Term))
+		return nv, nil, ex.store(s, a[0].(Ptr), nv)
 	}
 }
